@@ -70,6 +70,9 @@ var badgerBenign = map[string]bool{"View": true, "NewWriteBatch": true, "Set": t
 	"Item": true, "Next": true, "Key": true, "Value": true, "Rewind": true, "ValueCopy": true, "KeyCopy": true, "Opts": true, "Sync": true,
 	"SetMaxPendingTxns": true, "IsClosed": true, "ValidForPrefix": true}
 
+// wireOnly: see the -wire-only flag.
+var wireOnly bool
+
 func die(format string, a ...interface{}) {
 	fmt.Fprintf(os.Stderr, "instr: "+format+"\n", a...)
 	os.Exit(2)
@@ -81,6 +84,7 @@ func main() {
 	overlayPath := flag.String("overlay", "", "overlay json to write")
 	tags := flag.String("tags", "verif", "build tags")
 	only := flag.String("only", "", "comma-separated import paths to restrict to")
+	flag.BoolVar(&wireOnly, "wire-only", false, "only redirect the pb.New*Client constructors to the in-memory wire (for free-running -race twins): no scheduler hooks")
 	flag.Parse()
 	if *out == "" || *overlayPath == "" {
 		die("need -out and -overlay")
@@ -92,6 +96,16 @@ func main() {
 	}
 	if err := json.Unmarshal(b, &specs); err != nil {
 		die("config: %v", err)
+	}
+	if wireOnly {
+		var f []pkgSpec
+		for _, s := range specs {
+			if s.Fakes {
+				s.Replace, s.Tunables, s.Durable, s.Typed = nil, nil, false, false
+				f = append(f, s)
+			}
+		}
+		specs = f
 	}
 	if *only != "" {
 		keep := map[string]bool{}
@@ -671,7 +685,15 @@ func instrumentPackage(spec pkgSpec, lp *listPkg, pkgs map[string]*listPkg, out 
 		}
 		delete(owned, f)
 		r := &rewriter{fset: fset, file: files[i], src: srcs[f], info: info, spec: spec, name: f}
-		text := r.rewriteFile()
+		var text string
+		if wireOnly {
+			if text = r.rewriteWireOnly(); text == "" {
+				delete(owned, f)
+				continue
+			}
+		} else {
+			text = r.rewriteFile()
+		}
 		if len(r.errs) > 0 {
 			for _, e := range r.errs {
 				fmt.Fprintln(os.Stderr, "instr: unsupported construct: "+e)
@@ -693,6 +715,37 @@ func instrumentPackage(spec pkgSpec, lp *listPkg, pkgs map[string]*listPkg, out 
 			die("tunable constant %s not found in %s", t, lp.ImportPath)
 		}
 	}
+}
+
+// rewriteWireOnly redirects the protobuf client constructors and nothing else; "" if the file has none.
+func (r *rewriter) rewriteWireOnly() string {
+	f := r.file
+	for _, im := range f.Imports {
+		if strings.Trim(im.Path.Value, `"`) == "github.com/marekgalovic/anndb/protobuf" {
+			r.pbName = "protobuf"
+			if im.Name != nil {
+				r.pbName = im.Name.Name
+			}
+		}
+	}
+	if r.pbName == "" {
+		return ""
+	}
+	ast.Inspect(f, func(n ast.Node) bool {
+		if call, ok := n.(*ast.CallExpr); ok {
+			if sel, ok := call.Fun.(*ast.SelectorExpr); ok {
+				if id, ok := sel.X.(*ast.Ident); ok && id.Name == r.pbName && pbClientCtors[sel.Sel.Name] {
+					r.add(r.off(sel.Pos()), r.off(sel.End()), "vrtfakes__."+sel.Sel.Name)
+				}
+			}
+		}
+		return true
+	})
+	if len(r.edits) == 0 {
+		return ""
+	}
+	r.add(r.off(f.Name.End()), r.off(f.Name.End()), `; import vrtfakes__ "anndbverif/vrt/fakes"`)
+	return r.render(0, len(r.src))
 }
 
 func (r *rewriter) rewriteFile() string {
